@@ -1,0 +1,5 @@
+//go:build !verif
+
+package valuenotifier
+
+func verifYield(string) {}
